@@ -202,6 +202,21 @@ claim("C19", "other",
       "path tables over coroutine MIR (await loops cut) + event-order (typestate) rule for the mutex guard + panic inventory",
       "DESIGN.md §3 C19")
 
+claim("C15", "other",
+      "Decided statically: every str range-index site has char-boundary bounds by construction; events fire from a single "
+      "site iff the insert was accepted (vacant or strictly newer) and the new status is not Deleted, carrying key/new value/"
+      "owner id, and deletes cannot reach the listeners; in the dispatcher the empty-prefix listeners get the unstripped event, "
+      "all others only after a successful strip of the prefix of the SAME map entry, the empty key skips the scan, any early "
+      "exit is implied by prefix > key and the scanned range [first char, key] contains every non-empty prefix — both "
+      "evaluated over all strings up to length 2-3 of an alphabet with 1-, 2- and 4-byte characters on the extracted terms; "
+      "strip_key_prefix strips exactly the prefix; handle drop / forever / id allocation; every copy created or reset by the "
+      "cluster state carries the shared listener registry.",
+      "BTreeMap::range and str::strip_prefix semantics assumed; 'exactly once per subscription' additionally relies on the "
+      "HashMap of callbacks per prefix (one entry per id). Unrecognised range-bound forms are reported as 'not decided', not as "
+      "violations.",
+      "decision-table extraction from MIR + evaluation of extracted string predicates on an exhaustive small-string domain + inventories",
+      "DESIGN.md §3 C15")
+
 ALL = ["C%02d" % i for i in range(1, 21)]
 PENDING_REASON = "check under construction in this session (rules designed in DESIGN.md §3, not yet armed)"
 
